@@ -38,6 +38,23 @@ CLAIMED = {
     text='tc_sound is proved for every history of uploads (matching or not), insert-file, removals, evictions at any moment and reopenings, for insert_with as repaired by the fix: commit; the model is replayed against the real TcCache (small capacities force real LRU evictions) and every id reported present or served is re-hashed.',
     note='Trusted: Lean kernel, Model/TcCache.lean (tied by h_tc). F-C17-a was a genuine defect repaired by a fix: commit (kept as a kernel-checked witness of the pinned behaviour).',
     ref='DESIGN.md section 4 C17, Appendix B.18'),
+
+ 'C01': dict(technique='Lean 4 proof over regenerated argument tables and key constants (partition of the re-synthesised command line, hashed coverage, unhashed policy by decide over the whole table, L1 decision table, L0 transparency over all histories) + differential correspondence (real parse_arguments / generate_compile_commands, real get_cached_or_compile) + end-to-end monitor against direct gcc/clang runs',
+    text='regen_partition, hashed_covers, regen_complete (every parse), unhashed_policy and tables_names_distinct (decide over the tables regenerated from gcc.rs/clang.rs on every run), hit_runs_nothing (whole L1 alphabet), transparent (all histories, under A1) and never_replayed_for_different_request (via C02) are proved; the parser model is diffed against the real gcc/clang parsers on 20 000 command lines per run, the decision table against the real get_cached_or_compile exhaustively, and real sccache+gcc/clang histories are compared with direct compiles.',
+    note='Trusted: Lean kernel, translator, Model/Args.lean, ServerL1.lean, Spec.lean (tied by h_args/h_l1), A1 (compilers are functions of the hashed components: tested by the system monitor, not proved). Known findings F-C01-b (lossy non-UTF-8 values), F-C01-d (server umask 027 changes output modes). Not modelled: -Xclang second pass.',
+    ref='DESIGN.md section 4 C01, Appendix A.6, B.12, B.14, B.15'),
+ 'C03': dict(technique='Lean 4 proof (key determinism, allow-list filter, L0 repeat_hits over all histories, reopen keeps files, rustc key permutation invariance) + byte-exact key correspondence + end-to-end repeat monitor with server restarts',
+    text='key_deterministic, unrelated_env_irrelevant, repeat_hits (any history of other requests, faults, restarts), reopen_preserves and rust_key_perm are proved; real-server histories with reverts, output-path and unrelated-env changes and restarts must classify every repeated successful request as a hit with zero compiler runs.',
+    note='Trusted: Lean kernel, models tied by h_key / h_lru; the end-to-end monitor samples histories (gcc, clang; rustc in C05). Evictions excluded as in the statement.',
+    ref='DESIGN.md section 4 C03, Appendix B.14'),
+ 'C09': dict(technique='Lean 4 proof (total decision functions over the finite fault alphabet, L0 over all fault histories, refinement L1 -> L0) + exhaustive enumeration of that alphabet on the real get_cached_or_compile + on-disk fault histories on the real server',
+    text='storage_fault_total, failed_not_stored, store_outcome_irrelevant, ppsection_total (after the fix of F-C09-a), transparent_under_faults, failed_never_cached, repopulates and decide1_refines_estep are proved; the L1 table is enumerated exhaustively (144 + 14 cases) on the real code with a fault-injecting Storage and corrupted preprocessor-cache files, and real-server histories with on-disk faults must equal direct compiles.',
+    note='Trusted: Lean kernel, Model/ServerL1.lean and Spec.lean (tied by h_l1). F-C09-a was a genuine defect repaired by a fix: commit.',
+    ref='DESIGN.md section 4 C09, Appendix B.12, D.1, D.2'),
+ 'C15': dict(technique='Lean 4 proof (L0: no history changes a cache whose stores are all refused; L1: store outcome irrelevant; L2: lookups and fitting start-up scans keep every file) + correspondence (h_l1, h_lru) + before/after digest listing of a real read-only cache',
+    text='readonly_unchanged, readonly_serves_and_compiles, store_outcome_irrelevant, get_keeps_files and reopen_keeps_files_partial are proved; a pre-populated real cache served under READ_ONLY is listed with content digests before and after mixed request histories (also with SCCACHE_RECACHE and preprocessor cache mode off) and every result is compared with a direct compile. Partial: a directory larger than its size limit is evicted at first use (F-C15-a, kernel-checked witness, open).',
+    note='Trusted: Lean kernel, models tied by h_l1 / h_lru; mtime touches are outside the statement.',
+    ref='DESIGN.md section 4 C15, Appendix B.19'),
 }
 NA_REASON = 'not yet wired into ./check in this round (model and theorems exist under lean/; see DESIGN.md section 0.1)'
 def hooks():
